@@ -482,10 +482,14 @@ class Known:
             for n in new:
                 if n.startswith("dmm_") and n not in self.weights:
                     self.weights[n] = [1.0 if i in self.mask else 0.0 for i in range(nq)]
-        if status == "ok" and op["k"] in ("eomon", "eommod"):
-            self.eom_open[real_name(op["ch"])] = True
-        elif status == "ok" and op["k"] == "eomoff":
-            self.eom_open[real_name(op["ch"])] = False
+        if op["k"] in ("eomon", "eommod", "eomoff"):
+            name = real_name(op["ch"])
+            if status != "ok" or self.eom_open.get(name, False) is None:
+                # a failed EOM call may leave the channel half-way (C09 family): the log says nothing any more
+                if name in seq._schedule:
+                    self.eom_open[name] = None
+            else:
+                self.eom_open[name] = op["k"] != "eomoff"
 
 
 def weight_of(det_map, pos) -> float:
@@ -592,7 +596,7 @@ def monitor_seq(real: RealSeq, user_pulses: set, rng, stats, known: Known | None
             x = cs.extend_duration(n_new)
         XA, XD, XP = arr(x.amp), arr(x.det), arr(x.phase)
         # still in EOM mode: from the harness' own log of enable/disable calls when it has one
-        still = known.eom_open[name] if name in known.eom_open else (
+        still = known.eom_open[name] if known.eom_open.get(name) is not None else (
             bool(sch.eom_blocks) and sch.eom_blocks[-1].tf is None)
         # (the value of detuning_off chosen by enable_eom_mode is C15's; read from the schedule)
         off = float(sch.eom_blocks[-1].detuning_off) if (still and sch.eom_blocks) else 0.0
@@ -909,16 +913,25 @@ def gen_slm_case(rng: random.Random) -> dict:
             continue
         spec["nq"] = rng.choice([2, 3, 4])
         break
-    g = HistoryGen(rng, spec, exact=True, profile=rng.choice(["mix", "target"]), p_invalid=0.03)
+    g = HistoryGen(rng, spec, exact=True, profile=rng.choice(["mix", "target", "dmm"] if mode == "ising" else ["mix", "target"]),
+                   p_invalid=0.03)
+    # atoms in an order that is NOT the order of their coordinates (weight maps sort traps by coordinate)
+    cells = [(6.0 * i, 6.0 * j) for i in range(3) for j in range(2)]
+    coords = [list(c) for c in rng.sample(cells, spec["nq"])]
     return dict(kind="slm", mode=mode, device=spec, n=rng.randrange(4, 16), slm_at=rng.randrange(0, 10),
-                mask=pick_mask(rng, spec["nq"]), gen=g)
+                mask=pick_mask(rng, spec["nq"]), coords=coords, gen=g)
 
 
 def run_slm_case(case: dict, stats, seed) -> CaseResult:
     """Real side only: the ops of the usual grammar plus one `config_slm_mask` (pseudo-op `slm`)."""
     res = CaseResult()
     rng = random.Random(f"C06-slm-{seed}")
-    real = RealSeq(Dev(case["device"]))
+    dev = Dev(case["device"])
+    if case.get("coords"):
+        from pulser import Register
+
+        dev.register = Register({q: tuple(xy) for q, xy in zip(dev.qids, case["coords"])})
+    real = RealSeq(dev)
     gen = case.get("gen")
     ops = case.get("ops")
     n = len(ops) if ops is not None else case["n"]
